@@ -556,6 +556,11 @@ def check_C09(run):
                "are no-ops or errors when applied), then Close and Open; judged here: every Open succeeds and nothing panics "
                "(the results of such transactions are C13's known finding F21)",
                only=lambda src, text: src == "harness" and ("open-failed" in text or "panic" in text or "close failed" in text))
+    n = 60 if run.tier == "quick" else 1200
+    hist_suite(run, "fuzzsparse", ["hist", "-n", n, "-x", "fuzzsparse"], "the sparse-mode fuzz suite of C20, judged here for Open: in "
+               "every fourth history the segments are filled by one structure only (list, set or sorted-set records: no key index), "
+               "rotated several times, and the directory is closed and opened again - Open must succeed",
+               use_driver=False, only=lambda src, text: "open-failed" in text)
 
 
 def check_C10(run):
